@@ -8,7 +8,7 @@ import (
 
 // VerifC05WriteAck: an acknowledgement is written at most once per packet and never overwritten.
 func VerifC05WriteAck() {
-	w := newWorld(2)
+	w := newWorld(2 + rt.Tier())
 	var p types.Packet
 	rt.Fresh(&p, "packet")
 	ack := rt.Bytes("ack")
@@ -34,7 +34,7 @@ func VerifC05WriteAck() {
 
 // VerifC05AckPacket: a commitment is removed only by an accepted acknowledgement of exactly that packet, once.
 func VerifC05AckPacket() {
-	w := newWorld(2)
+	w := newWorld(2 + rt.Tier())
 	msg := &types.MsgAcknowledgement{Packet: rt.Bytes("packetBytes"), Acknowledgement: rt.Bytes("ackBytes"), ProofAcked: rt.Bytes("proof"),
 		ProofHeight: clienttypes.Height{RevisionNumber: rt.U64("rev"), RevisionHeight: rt.U64("height")}, Signer: rt.Str("signer")}
 	var p types.Packet
